@@ -334,7 +334,7 @@ func checkNat(c natCase, r *h.Rec) error {
 	}
 	// Mod of a double-width value: a*b (unreduced product of the raw inputs, up to 150 bytes)
 	wide := new(big.Int).Mul(a, b)
-	m2, err := verifhook.NewModulusProduct(pw(8 * 80).Bytes(), pw(8 * 80).Bytes())
+	m2, err := verifhook.NewModulusProduct(pw(8*80).Bytes(), pw(8*80).Bytes())
 	if err != nil {
 		return fmt.Errorf("NewModulusProduct: %v", err)
 	}
@@ -364,7 +364,7 @@ func checkNat(c natCase, r *h.Rec) error {
 }
 
 func TestC05_Bigmod(t *testing.T) {
-	h.Prop(t, h.P{Name: "bigmod", Quick: 30000, Thorough: 600000}, func(t *rapid.T) natCase {
+	h.Prop(t, h.P{Name: "bigmod", Quick: 30000, Thorough: 600000, Journal: true}, func(t *rapid.T) natCase {
 		mi := rapid.SampledFrom([]int{0, 0, 0, 0, 1, 1, 1, 2, 3, 4, 5, 6, 7, 8, 9}).Draw(t, "mod")
 		m := natModuli[mi].m
 		size := (m.BitLen() + 7) / 8
